@@ -14,36 +14,14 @@ theorem C50_clean_rooted_normal (name : Str) : ∀ s ∈ relSegs name, Normal s 
     as `os.Open`, the path it opens is the (cleaned) document root followed by ordinary elements only:
     `root ++ "/" ++ seg₁ ++ "/" ++ … ` with no `..`, `.`, empty element or separator inside an element. -/
 theorem C50_under_root (cfg : Cfg) (fname : Str) (full : List Str) (h : openSegs cfg fname = some full) :
-    ∃ segs, full = rootSegs cfg ++ segs ∧ ∀ s ∈ segs, Normal s := by
-  unfold openSegs dirOpenRel at h
-  simp only [] at h
-  split at h
-  · simp at h
-  · simp only [Option.map_some, Option.some.injEq] at h
-    exact ⟨relSegs fname, by rw [← h, joinSegs_normal _ _ (relSegs_normal fname)]; rfl, relSegs_normal fname⟩
+    ∃ segs, full = rootSegs cfg ++ segs ∧ ∀ s ∈ segs, Normal s :=
+  openSegs_under_root cfg fname full h
 
 /-- the same for the existence probe of the `.gz` / `.br` variants (after the C50 fix): every file-system
     access of the handler stays below the document root. -/
 theorem C50_probe_under_root (cfg : Cfg) (fname : Str) :
     ∃ segs, probeSegs cfg fname = rootSegs cfg ++ segs ∧ ∀ s ∈ segs, Normal s :=
   ⟨relSegs fname, by unfold probeSegs; rw [joinSegs_normal _ _ (relSegs_normal fname)]; rfl, relSegs_normal fname⟩
-
-theorem newStaticFile_ok (cfg : Cfg) (fname : Str) (encs : List Enc) (c : Str) (e : Option Enc)
-    (h : newStaticFile cfg fname encs = .ok (c, e)) :
-    ∃ segs, (∀ s ∈ segs, Normal s) ∧ resolve cfg.tree cfg.sb (rootSegs cfg ++ segs) = Res.file c := by
-  unfold newStaticFile at h
-  simp only [] at h
-  split at h
-  · cases h
-  · rename_i full hopen
-    obtain ⟨segs, hfull, hn⟩ := C50_under_root cfg _ full hopen
-    split at h
-    · rename_i c' hres
-      simp only [Except.ok.injEq, Prod.mk.injEq] at h
-      exact ⟨segs, hn, by rw [← hfull, hres, h.1]⟩
-    · cases h
-    · cases h
-    · cases h
 
 /-- **C50_served_under_root**: a 200 response carries exactly the bytes of a regular file located below the
     document root (none for HEAD), and Content-Length is that file's size. -/
@@ -94,46 +72,6 @@ theorem C50_methods (cfg : Cfg) (method path : Str) (encs : List Enc) (df : Str)
       by_cases hg : method = sGET
       · exact Or.inl hg
       · exact Or.inr (hm hg)
-
-theorem pickVariant_mem (cfg : Cfg) (fname : Str) (encs : List Enc) :
-    (pickVariant cfg fname encs).1 = fname ∨ ∃ e ∈ encs, (pickVariant cfg fname encs).1 = fname ++ e.ext := by
-  induction encs with
-  | nil => left; rfl
-  | cons e es ih =>
-    unfold pickVariant
-    split
-    · right; exact ⟨e, by simp, rfl⟩
-    · rcases ih with h | ⟨e', he', h⟩
-      · left; exact h
-      · right; exact ⟨e', List.mem_cons_of_mem _ he', h⟩
-
-theorem newStaticFile_missing (cfg : Cfg) (fname : Str) (encs : List Enc)
-    (h : ∀ n ∈ fname :: encs.map (fun e => fname ++ e.ext), atRoot cfg n = Res.notExist ∧ (dirOpenRel n).isSome = true) :
-    newStaticFile cfg fname encs = .error Err.notExist := by
-  have hv : (pickVariant cfg fname encs).1 ∈ fname :: encs.map (fun e => fname ++ e.ext) := by
-    rcases pickVariant_mem cfg fname encs with h' | ⟨e, he, h'⟩
-    · rw [h']; simp
-    · rw [h']; exact List.mem_cons_of_mem _ (List.mem_map.mpr ⟨e, he, rfl⟩)
-  obtain ⟨h1, h2⟩ := h _ hv
-  unfold newStaticFile
-  simp only []
-  have hopen : openSegs cfg (pickVariant cfg fname encs).1 = some (rootSegs cfg ++ relSegs (pickVariant cfg fname encs).1) := by
-    unfold openSegs
-    cases hd : dirOpenRel (pickVariant cfg fname encs).1 with
-    | none => rw [hd] at h2; simp at h2
-    | some segs =>
-      have : segs = relSegs (pickVariant cfg fname encs).1 := by
-        unfold dirOpenRel at hd
-        simp only [] at hd
-        split at hd
-        · cases hd
-        · exact (Option.some.inj hd).symm
-      subst this
-      simp only [Option.map_some]
-      rw [joinSegs_normal _ _ (relSegs_normal _)]; rfl
-  rw [hopen]
-  unfold atRoot at h1
-  simp only [h1]
 
 /-- **C50_404**: when neither the requested file, nor an accepted encoded variant of it, nor the default
     file (or its variants) exists below the root, and the names are acceptable to `http.Dir`, a GET/HEAD
@@ -196,5 +134,150 @@ example : ∀ n ∈ candidateNames [0x2f, 0x2e, 0x2e, 0x2f, 0x73] [] [],
     atRoot exCfg n = Res.notExist ∧ (dirOpenRel n).isSome = true := by decide
 example : serve exCfg sGET [0x2f, 0x2e, 0x2e, 0x2f, 0x73] [] [] = { status := 404 } := by decide
 example : validUtf8 [0xc3, 0xa9] = true ∧ validUtf8 [0xff] = false ∧ validUtf8 [0xed, 0xa0, 0x80] = false := by decide
+
+/-! ### non-interference -/
+
+/-- **C50_outside_root_irrelevant** (non-interference): two file trees that agree on the way to the document
+    root and everywhere below it — and differ arbitrarily elsewhere: sentinel files, `.gz` twins next to the
+    root, sibling directories — give every request the same status, Content-Encoding, Content-Length and
+    body.  (After the C50 fix; the unrooted variant probe of the unfixed code violated this.) -/
+theorem C50_outside_root_irrelevant (c1 c2 : Cfg) (h : AgreeBelowRoot c1 c2)
+    (method path : Str) (encs : List Enc) (df : Str) :
+    serve c1 method path encs df = serve c2 method path encs df := by
+  unfold serve openStaticFile
+  rw [newStaticFile_congr c1 c2 h path encs, newStaticFile_congr c1 c2 h df encs]
+
+/-- a syntactic way to obtain `AgreeBelowRoot`: adding any entry whose place is neither on the way to the
+    root nor below it (a file outside the root) to a tree in which the root directory exists -/
+theorem C50_agree_add_outside (cfg : Cfg) (e : Entry) (rootRel : List Str)
+    (hroot : rootSegs cfg = cfg.sb ++ rootRel)
+    (hexists : ∃ e0 ∈ cfg.tree, rootRel <+: e0.path)
+    (hout : ¬ (e.path <+: rootRel) ∧ ¬ (rootRel <+: e.path)) :
+    AgreeBelowRoot cfg { cfg with tree := cfg.tree ++ [e] } := by
+  refine ⟨rfl, rfl, ?_⟩
+  intro p hp
+  rw [hroot] at hp
+  have hp' : p <+: rootRel ∨ rootRel <+: p := by
+    rcases hp with h | h
+    · exact Or.inl ((List.prefix_append_right_inj _).mp h)
+    · exact Or.inr ((List.prefix_append_right_inj _).mp h)
+  have hne : (e.path == p) = false := by
+    simp only [beq_eq_false_iff_ne]
+    intro heq
+    rcases hp' with h | h
+    · exact hout.1 (heq ▸ h)
+    · exact hout.2 (heq ▸ h)
+  unfold nodeAt
+  simp only [List.find?_append, List.find?_cons, hne, List.find?_nil, Option.or_none]
+  cases hf : List.find? (fun e => e.path == p) cfg.tree with
+  | some x => rfl
+  | none =>
+    simp only [List.any_append, List.any_cons, List.any_nil, Bool.or_false]
+    rcases hp' with h | h
+    · -- p is an ancestor of (or is) the root, which exists: a directory in both trees
+      obtain ⟨e0, he0, hpre⟩ := hexists
+      have : cfg.tree.any (fun e => p.isPrefixOf e.path) = true :=
+        List.any_eq_true.mpr ⟨e0, he0, List.isPrefixOf_iff_prefix.mpr (List.IsPrefix.trans h hpre)⟩
+      simp [this]
+    · have : p.isPrefixOf e.path = false := by
+        cases hx : p.isPrefixOf e.path with
+        | false => rfl
+        | true => exact absurd (List.IsPrefix.trans h (List.isPrefixOf_iff_prefix.mp hx)) hout.2
+      simp [this]
+
+-- the sentinel /S/s of `exCfg` is such an entry: the tree with and without it serve identically
+example : AgreeBelowRoot { exCfg with tree := [{ path := [[0x72], [0x61]], node := Node.file [1, 2, 3] }] } exCfg :=
+  C50_agree_add_outside { exCfg with tree := [{ path := [[0x72], [0x61]], node := Node.file [1, 2, 3] }] }
+    { path := [[0x73]], node := Node.file [9] } [[0x72]] (by decide) ⟨_, List.mem_singleton.mpr rfl, by decide⟩
+    ⟨by decide, by decide⟩
+
+/-! ### the 500 answers -/
+
+/-- **C50_500_cause**: a 500 answer has exactly three possible causes, each tied to a name the request may
+    be answered from: `http.Dir` rejects the name (NUL, invalid UTF-8), the name is a directory, or an
+    element is longer than NAME_MAX. -/
+theorem C50_500_cause (cfg : Cfg) (method path : Str) (encs : List Enc) (df : Str)
+    (h : (serve cfg method path encs df).status = 500) :
+    ∃ n ∈ candidateNames path encs df,
+      dirOpenRel n = none ∨ atRoot cfg n = Res.dir ∨ atRoot cfg n = Res.tooLong := by
+  unfold serve at h
+  split at h
+  · simp at h
+  · cases ho : openStaticFile cfg path encs df with
+    | ok r => rw [ho] at h; simp at h
+    | error e =>
+      rw [ho] at h
+      have hne : e ≠ Err.notExist := by intro he; subst he; simp [errorStatus] at h
+      unfold openStaticFile at ho
+      cases hp : newStaticFile cfg path encs with
+      | ok r => rw [hp] at ho; cases ho
+      | error e1 =>
+        rw [hp] at ho
+        simp only [] at ho
+        by_cases hfb : ((e1 == Err.notExist || e1 == Err.isDir) && df != []) = true
+        · rw [if_pos hfb] at ho
+          obtain ⟨n, hn, hc⟩ := newStaticFile_err cfg df encs e ho hne
+          refine ⟨n, ?_, hc⟩
+          have hd : df ≠ [] := by simp at hfb; exact hfb.2
+          unfold candidateNames
+          simp at hn
+          simp [hd]
+          rcases hn with h' | h'
+          · exact Or.inr (Or.inr (Or.inl h'))
+          · exact Or.inr (Or.inr (Or.inr h'))
+        · rw [if_neg hfb] at ho
+          simp only [Except.error.injEq] at ho
+          subst ho
+          obtain ⟨n, hn, hc⟩ := newStaticFile_err cfg path encs e1 hp hne
+          refine ⟨n, ?_, hc⟩
+          unfold candidateNames
+          simp at hn
+          by_cases hd : df = []
+          · simp [hd]; exact hn
+          · simp [hd]
+            rcases hn with h' | h'
+            · exact Or.inl h'
+            · exact Or.inr (Or.inl h')
+
+/-- The property's clause "answers missing files with 404" read literally: whenever none of the names the
+    request may be answered from is a regular file below the root, a GET/HEAD gets 404. -/
+def C50_missing_404_full : Prop :=
+  ∀ (cfg : Cfg) (method path : Str) (encs : List Enc) (df : Str), (method = sGET ∨ method = sHEAD) →
+    (∀ n ∈ candidateNames path encs df, (atRoot cfg n).isFile = false) →
+    (serve cfg method path encs df).status = 404
+
+def exCfgDir : Cfg :=
+  { tree := [{ path := [[0x72], [0x64]], node := Node.dir }], sb := [[0x53]], root := [0x2f, 0x53, 0x2f, 0x72] }
+
+/-- **Finding** (`directory-not-404`): a directory (here `/d`, and likewise `/` itself) requested when no
+    default file is configured is answered 500 (`errUnexpectedDir` falls through `errorStatusCode`). -/
+theorem C50_witness_directory_500 : ¬ C50_missing_404_full := by
+  intro h
+  have := h exCfgDir sGET [0x2f, 0x64] [] [] (Or.inl rfl) (by decide)
+  revert this
+  decide
+
+/-- **Finding** (`bad-name-not-404`): a name `http.Dir` rejects (here `/` followed by a NUL byte) is answered 500
+    although it names no file. -/
+theorem C50_witness_badname_500 : (serve exCfgDir sGET [0x2f, 0x00] [] []).status = 500 ∧
+    (∀ n ∈ candidateNames [0x2f, 0x00] [] [], (atRoot exCfgDir n).isFile = false) := by decide
+
+/-- `C50_missing_404_full` holds once the three causes of `C50_500_cause` are excluded. -/
+theorem C50_missing_404_partial (cfg : Cfg) (method path : Str) (encs : List Enc) (df : Str)
+    (hm : method = sGET ∨ method = sHEAD)
+    (hmiss : ∀ n ∈ candidateNames path encs df, (atRoot cfg n).isFile = false)
+    (hok : ∀ n ∈ candidateNames path encs df,
+      dirOpenRel n ≠ none ∧ atRoot cfg n ≠ Res.dir ∧ atRoot cfg n ≠ Res.tooLong) :
+    (serve cfg method path encs df).status = 404 := by
+  have := C50_404 cfg method path encs df hm (by
+    intro n hn
+    obtain ⟨h1, h2, h3⟩ := hok n hn
+    refine ⟨?_, by cases hd : dirOpenRel n with | none => exact absurd hd h1 | some _ => rfl⟩
+    cases hr : atRoot cfg n with
+    | file c => have := hmiss n hn; rw [hr] at this; cases this
+    | dir => exact absurd hr h2
+    | notExist => rfl
+    | tooLong => exact absurd hr h3)
+  rw [this]
 
 end BfeVerif.C50
